@@ -42,13 +42,23 @@ def run(R):
     fn = fns[0]
     rets = [(p, e) for p, e in fn.events() if e.get("k") == "return"]
     cache = None
+    from lib.rules import same_value
+    tls_writes = writes_to(fn, lambda v: v.get("vk") == "tls")
     for p, e in rets:
         v = strip_casts(e.get("e"))
         ok = isinstance(v, dict) and v.get("k") == "var" and v.get("vk") == "tls"
-        R.ob("C45.cache-tls", fn, e, ok, "returns %s (%s)" % (expr_str(v), v.get("vk") if isinstance(v, dict) else "?"), sitekey="return",
-             why=WHY)
+        det = "returns %s (%s)" % (expr_str(v), v.get("vk") if isinstance(v, dict) else "?")
         if ok:
             cache = v.get("qname")
+        else:
+            # `const id_t fresh = counter.fetch_add(1); cache = fresh; return fresh;` returns the value
+            # it has just stored in the thread-local cache
+            for wp, we, wl in tls_writes:
+                if we.get("op") == "=" and fn.dominates(wp, p) and same_value(we.get("r"), v, fn):
+                    ok = True
+                    cache = cache or wl.get("qname")
+                    det = "returns %s, the value just stored in the thread-local %s" % (expr_str(v), wl.get("name"))
+        R.ob("C45.cache-tls", fn, e, ok, det, sitekey="return", why=WHY)
     R.need("C45.cache-tls", len(rets), 1, "return statements of threadId()")
     if cache is None:
         return
@@ -72,7 +82,7 @@ def run(R):
                  ("write guarded by " + "; ".join(det)) if det else ("write to the per-thread id outside threadId()" if not inside else "write not guarded by the 'unassigned' test"),
                  sitekey="write:" + cache.split("::")[-1], why=WHY)
             if inside and ev.get("op") == "=":
-                r = strip_casts(ev.get("r"))
+                r = strip_casts(g.expand_expr(ev.get("r"), use_block=pos.b))
                 ok = False
                 d = expr_str(r)
                 if isinstance(r, dict) and r.get("k") == "call" and "atomic" in r and r["atomic"]["op"] == "fetch_add":
